@@ -92,11 +92,9 @@ class Matcher:
             self.add("op_exc", n, expected=ee, actual=ae)
         if ee and ee.get("cls") == "TransitionNotAllowed":
             self.stats["tna"] += 1
-        # ---- result
-        if op["op"] == "send" and ee is None and ae is None:
-            self.check_result(n, exp, out)
         # ---- state
         obs = out.get("obs") or {}
+        allowed_f = None
         if rp is not None and not obs.get("absent"):
             es = exp.get("state")
             if es is None:
@@ -109,10 +107,15 @@ class Matcher:
                     self.add("model_field", n, expected=rp.value_of[es], actual=obs.get("field"))
                 ea = rp.allowed(es)
                 if obs.get("allowed") != ea:
-                    self.add("allowed", n, expected=ea, actual=obs.get("allowed", obs.get("allowed_err")))
+                    allowed_f = dict(expected=ea, actual=obs.get("allowed", obs.get("allowed_err")))
         # ---- callback sequence
         if inst is not None:
             self.check_sequence(n, tag, inst, exp, seg)
+        # ---- result (only meaningful when the right callbacks ran)
+        if op["op"] == "send" and ee is None and ae is None:
+            self.check_result(n, exp, out)
+        if allowed_f is not None:
+            self.add("allowed", n, **allowed_f)
 
     # ------------------------------------------------------------------ pieces
     @staticmethod
